@@ -236,9 +236,11 @@ class Interp:
         shift_a = np.array([b for _, b in ms], np.int64).reshape(1, 1, 1, -1)
         if xt.type == "INT16":
             # 16x8 kernels: 64-bit accumulator and bias, 16-bit ("reduced") multiplier
+            # ... unless the bias is 32-bit: then the 32-bit accumulator kernel with the full multiplier is the reference
             if b_i >= 0 and self.m.tensors[b_i].type != "INT64":
-                raise Unsupported("int16 convolution with 32-bit bias")
-            y = mbqm64(acc, mult_a, shift_a) + yzp
+                y = mbqm(acc, mult_a, shift_a) + yzp
+            else:
+                y = mbqm64(acc, mult_a, shift_a) + yzp
         else:
             y = mbqm(acc, mult_a, shift_a) + yzp
         lo, hi = act_range(o.get("FusedActivationFunction", 0), yt.type, ys, yzp)
@@ -261,18 +263,15 @@ class Interp:
         ys, yzp = self.scalar_q(op.outputs[0])
         yt = self.m.tensors[op.outputs[0]]
         int16 = self.m.tensors[x_i].type == "INT16"
-        if int16 and b_i >= 0 and self.m.tensors[b_i].type != "INT64":
-            raise Unsupported("int16 FC with 32-bit bias")
+        wide = int16 and not (b_i >= 0 and self.m.tensors[b_i].type != "INT64")  # 32-bit bias: 32-bit accumulator kernel
         oc, n_in = w.shape
         x2 = x.reshape(-1, n_in) - xzp
         acc = x2 @ (w - wzp).T
         if b_i >= 0:
             acc = acc + self.get(b_i).reshape(1, -1)
         real = float(np.float64(np.float32(np.float32(xs) * np.float32(ws))) / np.float64(np.float32(ys)))
-        if int16:
-            real = float(np.float64(np.float32(xs)) * np.float64(np.float32(ws)) / np.float64(np.float32(ys)))
         m_, s_ = quantize_multiplier(real)
-        y = (mbqm64(acc, m_, s_) if int16 else mbqm(acc, m_, s_)) + yzp
+        y = (mbqm64(acc, m_, s_) if wide else mbqm(acc, m_, s_)) + yzp
         lo, hi = act_range(o.get("FusedActivationFunction", 0), yt.type, ys, yzp)
         self.put(op.outputs[0], np.clip(y, lo, hi).reshape(yt.shape), 0, [x_i])
 
@@ -708,8 +707,7 @@ class Interp:
         xtype = self.m.tensors[x_i].type
         if xtype not in ("INT8", "UINT8", "INT16"):
             raise Unsupported("transpose conv dtype")
-        if xtype == "INT16" and b_i >= 0 and self.m.tensors[b_i].type != "INT64":
-            raise Unsupported("int16 transpose conv with 32-bit bias")
+        wide = xtype == "INT16" and not (b_i >= 0 and self.m.tensors[b_i].type != "INT64")
         N, H, W, C = x.shape
         oc, kh, kw, _ = w.shape
         sh, sw = o["StrideH"], o["StrideW"]
@@ -741,7 +739,7 @@ class Interp:
         ms = [quantize_multiplier(r) for r in reals]
         ma = np.array([a for a, _ in ms], np.int64).reshape(1, 1, 1, -1)
         sa = np.array([b for _, b in ms], np.int64).reshape(1, 1, 1, -1)
-        y = (mbqm64(acc, ma, sa) if xtype == "INT16" else mbqm(acc, ma, sa)) + yzp
+        y = (mbqm64(acc, ma, sa) if wide else mbqm(acc, ma, sa)) + yzp
         self.put(op.outputs[0], y, 0, [x_i])
 
     # ---------------------------------------------------------------- CPU-only operators of the workload
